@@ -234,6 +234,6 @@ def run(ctx, rep):
         rule_inventory(rep, crate2)
     cg.cg_controls(rep, ctx, [('M-C19d', rule_variants)])
     from props import gen
-    gen.rule_must_reject(ctx, rep, gen.configs(ctx), ['empty_match', 'greedy_dot', 'greedy_dot_hidden', 'greedy_dot_explicit_false', 'undefined_subpattern', 'variants', 'look_behind', 'non_utf8_in_str_mode'], floor=34)
+    gen.rule_must_reject(ctx, rep, gen.configs(ctx), ['empty_match', 'empty_callback', 'greedy_dot', 'greedy_dot_hidden', 'greedy_dot_explicit_false', 'undefined_subpattern', 'variants', 'look_behind', 'non_utf8_in_str_mode'], floor=34)
     rep.trusted += ['rustc nightly MIR and callee resolution', 'engines/mirfacts', 'the reasons in lib/props/c19_table.py were established by reading the code']
     rep.assumptions += ['input parses as an enum (the property quantifies over enum inputs)', 'third-party crates do not panic on valid calls', 'allocation failure is out of scope']
